@@ -3,10 +3,10 @@
 
      sim_complete   a plan that is well formed for some order is accepted (rejected => no order exists)
      sim_sound      an accepted plan whose structure is fine (non-empty disjoint produced sets, distinct ids, every
-                    requirement produced) and in which no step requires one of its own uuids is well formed for an
-                    explicit order (the order in which the simulation starts the steps)
-   The side condition no_self_req is needed: the validation subtracts a step's own uuids from its requirements, the
-   orchestrator does not (sim_self_req_gap). *)
+                    requirement produced) is well formed for an explicit order: the order in which the simulation
+                    starts the steps
+   Since /repo 7287741 the simulation uses the orchestrator's start condition unchanged, so no side condition about
+   steps requiring their own uuids is needed (such a plan is rejected: sim_self_req_rejected). *)
 From Coq Require Import List Bool Arith Lia Permutation.
 Import ListNotations.
 Require Import MV.Model.Orch MV.Model.OrchCheck MV.Model.PlannerA.
@@ -98,10 +98,7 @@ Qed.
 
 (* ---------- completeness: a well-formed plan is accepted ---------- *)
 Lemma sim_ready_of_req : forall fin s, subset (req s) fin = true -> runsim_ready fin s = true.
-Proof.
-  intros fin s H. unfold runsim_ready. apply subset_incl. apply subset_incl in H. intros u Hu.
-  apply remove_all_In in Hu. apply H. apply Hu.
-Qed.
+Proof. intros fin s H. exact H. Qed.
 
 Theorem sim_complete : forall order p, wf_plan order p = true -> runsim_accepts p = true.
 Proof.
@@ -150,19 +147,18 @@ Lemma bidx_le : forall B x, bidx B x <= List.length B.
 Proof. intros B x. induction B as [|b t IH]; cbn; [lia|]. destruct (mem x (map sid b)); lia. Qed.
 
 Lemma sb_ok_idx : forall B fin, sb_ok fin B -> NoDup (map sid (concat B)) ->
-  forall s u, In s (concat B) -> In u (req s) -> ~ In u (uuids s) ->
+  forall s u, In s (concat B) -> In u (req s) ->
   In u fin \/ exists s', In s' (concat B) /\ In u (uuids s') /\ bidx B (sid s') < bidx B (sid s).
 Proof.
-  intros B. induction B as [|b t IH]; intros fin Hok Hnd s u Hs Hu Hnu; [destruct Hs|].
+  intros B. induction B as [|b t IH]; intros fin Hok Hnd s u Hs Hu; [destruct Hs|].
   destruct Hok as [Hb Ht]. cbn [concat] in *. rewrite map_app in Hnd. cbn [bidx].
   destruct (mem (sid s) (map sid b)) eqn:E.
   - left. apply mem_In in E. apply in_map_iff in E. destruct E as [s2 [E2 Hs2]].
     assert (Es : s2 = s).
     { rewrite <- map_app in Hnd. apply (NoDup_map_inj step sid (b ++ concat t) Hnd); [apply in_or_app; left; exact Hs2 | exact Hs | exact E2]. }
-    subst s2. specialize (Hb s Hs2). unfold runsim_ready in Hb. apply subset_incl in Hb. apply Hb.
-    apply remove_all_In. split; assumption.
+    subst s2. specialize (Hb s Hs2). unfold runsim_ready in Hb. apply subset_incl in Hb. exact (Hb u Hu).
   - apply mem_false in E. apply in_app_iff in Hs. destruct Hs as [Hs|Hs]; [exfalso; apply E; apply in_map; exact Hs|].
-    destruct (IH (fin ++ flat_map uuids b) Ht (NoDup_app_tail _ _ Hnd) s u Hs Hu Hnu) as [H|[s' [Hs' [Hu' Hlt]]]].
+    destruct (IH (fin ++ flat_map uuids b) Ht (NoDup_app_tail _ _ Hnd) s u Hs Hu) as [H|[s' [Hs' [Hu' Hlt]]]].
     + apply in_app_iff in H. destruct H as [H|H]; [left; exact H|]. right. apply in_flat_map in H.
       destruct H as [s' [Hs' Hu']]. exists s'. split; [apply in_or_app; left; exact Hs'|]. split; [exact Hu'|].
       assert (Em : mem (sid s') (map sid b) = true) by (apply mem_In; apply in_map; exact Hs'). rewrite Em. lia.
@@ -173,10 +169,10 @@ Qed.
 Definition sim_order (p : plan) : list nat :=
   let B := fst (sim_batches (List.length p) p []) in order_upto p (bidx B) (S (List.length B)).
 
-Theorem sim_sound : forall p, runsim_accepts p = true -> wf_struct p = true -> no_self_req p = true ->
+Theorem sim_sound : forall p, runsim_accepts p = true -> wf_struct p = true ->
   wf_plan (sim_order p) p = true.
 Proof.
-  intros p Hacc Hst Hself. unfold sim_order.
+  intros p Hacc Hst. unfold sim_order.
   destruct (sim_spec (List.length p) p [] (le_n _)) as (P1 & P2 & _).
   set (B := fst (sim_batches (List.length p) p [])) in *.
   assert (HL : snd (sim_batches (List.length p) p []) = []).
@@ -192,23 +188,30 @@ Proof.
   - intros s u Hs Hu. specialize (Hprod s Hs). rewrite forallb_forall in Hprod. apply mem_In. exact (Hprod u Hu).
   - intros s _. pose proof (bidx_le B (sid s)). lia.
   - intros s s' u Hs Hs' Hu Hu'.
-    assert (Hnu : ~ In u (uuids s)).
-    { unfold no_self_req in Hself. rewrite forallb_forall in Hself. specialize (Hself s Hs).
-      exact (proj1 (disjoint_spec _ _) Hself u Hu). }
     assert (HndB : NoDup (map sid (concat B))) by (apply (Permutation_NoDup (Permutation_map sid (Permutation_sym P1))); exact Hsid).
-    destruct (sb_ok_idx B [] P2 HndB s u (Permutation_in _ (Permutation_sym P1) Hs) Hu Hnu) as [[]|[s2 [Hs2 [Hu2 Hlt]]]].
+    destruct (sb_ok_idx B [] P2 HndB s u (Permutation_in _ (Permutation_sym P1) Hs) Hu) as [[]|[s2 [Hs2 [Hu2 Hlt]]]].
     assert (E : s2 = s').
     { unfold all_uuids in Huu. apply (NoDup_flat_map_disj step uuids p Huu s2 s' u); [exact (Permutation_in _ P1 Hs2) | exact Hs' | exact Hu2 | exact Hu']. }
     subst s2. exact Hlt.
 Qed.
 
 (* the two directions together, for plans of any kind of steps *)
-Corollary runsim_accepts_iff : forall p, wf_struct p = true -> no_self_req p = true ->
+Corollary runsim_accepts_iff : forall p, wf_struct p = true ->
   (runsim_accepts p = true <-> exists order, wf_plan order p = true).
 Proof.
-  intros p Hst Hself. split.
-  - intros H. exists (sim_order p). exact (sim_sound p H Hst Hself).
+  intros p Hst. split.
+  - intros H. exists (sim_order p). exact (sim_sound p H Hst).
   - intros [order H]. exact (sim_complete order p H).
+Qed.
+
+(* one executable predicate for every exported plan: it holds exactly when the plan is well formed for some order *)
+Definition plan_accepted_wf (p : plan) : bool := wf_struct p && runsim_accepts p.
+Corollary plan_accepted_wf_iff : forall p, plan_accepted_wf p = true <-> exists order, wf_plan order p = true.
+Proof.
+  intros p. unfold plan_accepted_wf. split.
+  - intros H. apply andb_true_iff in H. destruct H as [Hst Hacc]. exists (sim_order p). exact (sim_sound p Hacc Hst).
+  - intros [order H]. apply andb_true_iff. split; [|exact (sim_complete order p H)].
+    unfold wf_plan in H. apply andb_true_iff in H. destruct H as [H _]. exact H.
 Qed.
 
 Corollary runsim_rejects_no_order : forall p, runsim_accepts p = false -> forall order, wf_plan order p = false.
@@ -216,10 +219,10 @@ Proof.
   intros p H order. destruct (wf_plan order p) eqn:E; [|reflexivity]. rewrite (sim_complete order p E) in H. discriminate.
 Qed.
 
-(* why no_self_req is needed: the validation ignores a step's requirement on its own uuid, the orchestrator does not *)
+(* a step that requires one of its own uuids can never start; the validation (since 7287741) rejects such a plan *)
 Definition p_selfreq : plan := [ {| sid := 0; skind := KJOIN; uuids := [1; 2]; req := [2]; requested := false |} ].
-Example sim_self_req_gap :
-  runsim_accepts p_selfreq = true /\ wf_struct p_selfreq = true /\ no_self_req p_selfreq = false /\
+Example sim_self_req_rejected :
+  runsim_accepts p_selfreq = false /\ wf_struct p_selfreq = true /\ no_self_req p_selfreq = false /\
   wf_plan_auto p_selfreq = false /\
   loop_head p_selfreq (run false true (fun _ => false) p_selfreq (repeat EScan 50)) = Looping.
 Proof. vm_compute. repeat split; reflexivity. Qed.
